@@ -236,9 +236,13 @@ def r01b(ctx):
         for ci in classes:
             mi = analyse_masker(ctx.repo, ci)
             n += 1
-            if mi.error or not mi.blend_ok:
-                raise AnalysisError(f'R01b: cannot model theta of {ci.name}: '
-                                    f'{mi.error or mi.blend_msg}')
+            if mi.error:
+                raise AnalysisError(f'R01b: cannot model theta of {ci.name}: {mi.error}')
+            if not mi.blend_ok:
+                ctx.ob('R01b', f'{ci.name}.theta always-alive tap', False,
+                       f'theta is not [C @] (|p|*(1-ka)+ka): {mi.blend_msg} — no tap is certainly '
+                       f'alive, so the END anchoring export relies on is lost', where(mi.theta_fn))
+                continue
             ok = mi.alive[E] is True
             ctx.ob('R01b', f'{ci.name}.theta always-alive tap', ok,
                    'the END (most recent) tap is alive for every parameter value' if ok else
@@ -641,6 +645,12 @@ def run(ctx):
     r01g(ctx)
     r01_export(ctx, classes)
     r01f(ctx, classes)
+    # R01h: masks line up across flatten / concat boundaries (shared with C09 R09c)
+    from . import c09
+    before = len(ctx.obligations)
+    c09.r09c(ctx)
+    for o in ctx.obligations[before:]:
+        o.rule = 'R01h'
     ctx.assume('torch semantics: boolean-mask indexing on one axis keeps the other axes; '
                'broadcasting is right-aligned; weight axes are (out, in/groups, *kernel) for '
                'convolutions and (out, in) for Linear')
